@@ -37,18 +37,38 @@ def run_cases(impl, model, cases):
         target = 'tramp2' if c['engine'] == 'lazy' else 'tramp'
         lines.append(' '.join(['c%d' % i, 'c06', c['engine'], target, G.hexs(H.c06_mir(c['proto'], c['body']).encode()),
                                G.hexs(vb), G.hexs(img)]))
-    rc, out, err = vlib.run_lines(impl, lines, timeout=1800)
+    rc, out, err = vlib.run_lines(impl, lines, timeout=1800, env={'C06_DUMP': '1'})
     rows = {}
     for l in out:
         if l.strip():
             r = G.parse_impl(l)
             rows.setdefault(r['id'], r)
+    # frame observations (generator listing after prologue/epilogue insertion) vs. the Frame model
+    fq, fobs = [], {}
+    for i, c in enumerate(cases):
+        r = rows.get('c%d' % i)
+        if r and r.get('status') == 'ok' and r.get('dump'):
+            obs = H.parse_dump(r['dump'].decode('utf-8', 'replace'), c['proto']['vararg'])
+            fobs[i] = obs
+            fq.append(H.frame_query('c%d' % i, obs, c['proto']['vararg']))
+    frows = {}
+    if fq:
+        rc3, fout, ferr = vlib.run_lines(model, fq, timeout=600)
+        if rc3 != 0 or len(fout) != len(fq):
+            raise vlib.BuildError('model driver failed on frame lines rc=%d: %s' % (rc3, ferr[-800:]))
+        for l in fout:
+            fr = H.parse_frame_row(l)
+            frows[fr['id']] = fr
     res = []
     for i, (c, m) in enumerate(zip(cases, ms)):
         r = rows.get('c%d' % i, dict(status='missing', detail='no output from harness: ' + err[-200:]))
         offs, _ = G.layout(c['proto'])
         ptrs = {k: VALS_ADDR + offs[k] for k, t in enumerate(c['proto']['args']) if t.startswith('rblk')}
-        res.append((c, H.compare_c06(c['proto'], c['body'], m, r, c['vals'], c['resvals'], ptrs), m))
+        bad = H.compare_c06(c['proto'], c['body'], m, r, c['vals'], c['resvals'], ptrs, c['engine'])
+        if i in fobs:
+            bad += H.compare_frame(fobs[i], frows['c%d' % i], c['proto']['vararg'])
+            m['frame'] = dict(obs={k: (sorted(v) if isinstance(v, set) else v) for k, v in fobs[i].items()}, model=frows['c%d' % i])
+        res.append((c, bad, m))
     return res
 
 
@@ -103,7 +123,8 @@ def gen_cases(chk, quick):
 def replay_obj(c, bad, m):
     return dict(proto=c['proto'], engine=c['engine'], body=c['body'], vals=[v.hex() for v in c['vals']],
                 resvals=[v.hex() for v in c['resvals']], junk=c['junk'], mismatches=bad,
-                model_image=['%s=%s/%d' % x for x in m['img']], mir=H.c06_mir(c['proto'], c['body']))
+                model_image=['%s=%s/%d' % x for x in m['img']], model_va=m.get('vastart'), frame=m.get('frame'),
+                mir=H.c06_mir(c['proto'], c['body']))
 
 
 def signature(c):
@@ -117,7 +138,10 @@ def shrink_case(impl, model, c):
     resvals = list(c['resvals'])
     body = dict(c['body'])
     def fails(cc):
-        return bool(run_cases(impl, model, [cc])[0][1])
+        if cc['proto']['vararg'] and cc['proto']['nfixed'] < 1:
+            return False
+        bad = run_cases(impl, model, [cc])[0][1]
+        return bool(bad) and not any(b.startswith('error') for b in bad)
     if body['kind'] != 'plain':
         cc = dict(c, body=dict(body, kind='plain'))
         if fails(cc):
